@@ -3,6 +3,7 @@ package props
 import (
 	"encoding/json"
 	"fmt"
+	"math"
 	"os"
 	"path/filepath"
 	"sort"
@@ -118,6 +119,18 @@ func c06Histories() []c06History {
 			bad := rig.ExecSpec{RunID: t + "-b", StepID: "echo", Input: map[string]any{"n": make(chan int)}, NoSigCh: true}
 			return [][]rig.ExecSpec{{ex(t, "a", "echo", nil)}, {bad}}
 		}, false},
+		{"duplicate-run-id-while-running", func(t string) [][]rig.ExecSpec {
+			// the second Execute names a run that is still in flight: it is refused, the first must still finish
+			a := ex(t, "a", "echo", map[string]any{"mode": "gated"})
+			dup := ex(t, "a", "echo2", nil)
+			return [][]rig.ExecSpec{{a, dup}, {ex(t, "b", "echo", nil)}}
+		}, false},
+		{"nan-and-inf-inputs-then-close", func(t string) [][]rig.ExecSpec {
+			return [][]rig.ExecSpec{{ex(t, "a", "echo", map[string]any{"payload": 0.5})}, {ex(t, "b", "echo", map[string]any{"payload": math.NaN()})}, {ex(t, "c", "echo", map[string]any{"payload": []any{math.Inf(1), math.Inf(-1)}})}}
+		}, false},
+		{"nan-input-only", func(t string) [][]rig.ExecSpec {
+			return [][]rig.ExecSpec{{ex(t, "a", "echo", map[string]any{"payload": math.NaN()})}}
+		}, false},
 		{"empty-step-id-overlap", func(t string) [][]rig.ExecSpec {
 			// the server answers an empty step ID with a step-fatal error that carries no run ID
 			return [][]rig.ExecSpec{{ex(t, "a", "", nil), ex(t, "b", "echo", map[string]any{"mode": "gated"})}, {ex(t, "c", "echo", nil)}}
@@ -153,6 +166,20 @@ func c06Judge(c *wk.Ctx, prop string, h string, spec rig.SessionSpec, res *rig.S
 	switch res.Monitor.Outcome {
 	case "inconclusive":
 		c.Inconclusive(fmt.Sprintf("history=%s schedule=%v: watchdog fired; still running: %v", h, spec.Sched, res.Monitor.Verdict.RunningDescr) + snapSummary(res.Monitor.Snap))
+		return false
+	case "send-timer-stall":
+		var unreturned []string
+		for _, e := range res.Execs {
+			if atomic.LoadInt32(&e.Returned) == 0 {
+				unreturned = append(unreturned, e.Spec.RunID)
+			}
+		}
+		wit["goroutines"] = res.Monitor.Snap.Detail()
+		if len(unreturned) == 0 && res.CloseReturnedAtVerdict {
+			c.Inconclusive(fmt.Sprintf("history=%s schedule=%v: only the server's send timer is pending, but no caller is waiting", h, spec.Sched))
+			return false
+		}
+		c.Violation(prop+":callers-wait-for-the-send-timeout", fmt.Sprintf("history %s: Execute %v / Close(returned=%v) wait while every goroutine is blocked and only the plugin's 60 s send timeout can still fire", h, unreturned, res.CloseReturnedAtVerdict), wit)
 		return false
 	case "deadlock":
 		var blocked []string
@@ -234,6 +261,7 @@ func panicSiteFromStack(stack string) string {
 }
 
 func runC06(c *wk.Ctx) {
+	rig.SendTimerStallIsVerdict = true
 	c.Meta("rule", "session histories (1 execute; 3 serial; 2 overlapping then 1; 3 overlapping; with to-step signals serial/overlapping; unused open signal channel; step-fatal errors; rejected input) against the real client and real RunATPServer in one process over buffered and chunked in-memory transports. Schedules: a baseline run records every (yield point, hit ordinal<=3) reached in atp/client.go+server.go (overlay build, one yield point before every statement); then every such point is paused singly, and pairs are sampled (thorough: many more). A paused goroutine is parked until a stop-the-world goroutine snapshot shows every other goroutine blocked, then released (logical time, no sleeps). Verdict: a snapshot with every goroutine blocked on chan/cond/mutex/WaitGroup, nothing parked, no SDK timer pending, and an unreturned Execute/Close = deadlock. non-trivial = at least one pause actually took effect; distinct = hash(history, schedule, transport)")
 	c.Meta("assumptions", []string{"a goroutine parked in the SDK's two timed selects (60 s send timeout, 5 s close timeout) makes the snapshot non-quiescent; such runs end inconclusive, never as violations",
 		"schedules perturb at statement granularity, singly and in pairs; triple-delay interleavings are out of reach"})
